@@ -5,6 +5,7 @@ import FxVerif.Proofs.C15Tally
 import FxVerif.Proofs.C15Run
 import FxVerif.Proofs.C15Step
 import FxVerif.Proofs.C15Staking
+import FxVerif.Proofs.C15Ledger
 /-!
 # C15 — governance deposits are conserved and proposals follow their message-type rules
 
@@ -909,6 +910,16 @@ theorem afterDeposit_voting (s : State) (p : Proposal) (amt : Nat) (hv : p.statu
     afterDeposit s p amt = { p with total := p.total + amt } := by
   simp [afterDeposit, hv]
 
+/-- **the active-queue keys are the stored voting ends** (two sites that have to agree, both read from the source): both
+`ActivateVotingPeriod` and the expedited→regular conversion write the proposal into the active queue under the very
+`VotingEndTime` they store in it — so the time the tally happens (`voting_ends_exactly_at_period_end`) is the time the
+proposal shows -/
+theorem queue_keys_are_the_stored_voting_end (s : State) (p : Proposal) :
+    activationQueueKeyIsVotingEnd = true ∧ conversionQueueKeyIsVotingEnd = true ∧
+    activationQueueTime s p = s.time + specPeriod s.params s.custom p.msgs p.expedited := by
+  refine ⟨rfl, rfl, ?_⟩
+  simp only [activationQueueTime, show activationQueueKeyIsVotingEnd = true from rfl, if_true, activation_period_by_type]
+
 /-- **a proposal enters voting exactly when a deposit brings its total to the minimum of its message type — after every
 history, for every next operation**.  With `s` the state after any operation list and `s'` the state after one more
 operation: (1) a stored proposal in its deposit period is in its voting period afterwards if AND ONLY IF its total changed
@@ -1177,6 +1188,25 @@ theorem tally_power_bounded_closed (ops : List WOp) (v : Val) (hv : v ∈ (viewO
   obtain ⟨pv, h1, _, h3⟩ := tally_power_bounded_by_stake v hS ds hsum
   exact ⟨pv, h1, h3⟩
 
+/-! ## round 3: the deposit ledger over whole histories -/
+
+/-- **every coin paid in for a proposal is held or has been settled — exactly once — after every history**: per proposal,
+the sum of everything ever deposited for it (initial deposits and `MsgDeposit`s, ghost log `paid`) equals the sum of its
+deposit records still stored plus the sum of its settlements (refund, burn, or refund-and-charge of a cancellation, ghost
+log `settled`, one entry per deposit record at the moment it was deleted).  Once the proposal is no longer open nothing is
+held, so exactly what was paid in has been settled: nothing twice, nothing left behind. -/
+theorem deposits_paid_equal_held_plus_settled (ops : List Op) (pid : Nat) :
+    let s := run init ops
+    sumAmt (depsOf s.paid pid) = sumAmt (depsOf s.deps pid) + sumSettled (settledOf s.settled pid) ∧
+    (isOpenId s.props pid = false → sumAmt (depsOf s.paid pid) = sumSettled (settledOf s.settled pid)) := by
+  intro s
+  have hl : Ledger s := run_ledger rfl rfl rfl ops init init_ledger
+  refine ⟨hl pid, fun hc => ?_⟩
+  have h0 : sumAmt (depsOf s.deps pid) = 0 := (each_deposit_settled_once ops pid hc).2
+  have h := hl pid
+  rw [h0] at h
+  simpa using h
+
 /-! ## non-vacuity -/
 
 def egf : Ty := egfUrl.toList
@@ -1278,5 +1308,10 @@ example : (wstep winit (.genesis { vals := [⟨100, 5, 0⟩] })).2 = "err:genesi
 example : (viewOf (wrun winit [.genesis demoGenesis, .slash 101 950000000000000000, .gov (.endBlock 1 {})]).stk).vals.map (·.op) = [100, 102] ∧
     (viewOf (wrun winit [.genesis demoGenesis, .gov (.mint 0 100), .slash 101 950000000000000000, .gov (.endBlock 1 {}), .delegate 0 101 5,
       .gov (.endBlock 1 {})]).stk).vals.map (fun v => (v.op, v.bonded)) = [(100, 100), (101, 10), (102, 100)] := by decide
+
+-- the ledger on the demo history: proposal 1 (passed, refunded) was paid 1999 + 1 and settled 1999 + 1; proposal 3 (open) holds 5000
+example : sumAmt (depsOf (run init demoOps).paid 1) = 2000 ∧ sumSettled (settledOf (run init demoOps).settled 1) = 2000 ∧
+    sumAmt (depsOf (run init demoOps).deps 1) = 0 ∧ sumAmt (depsOf (run init demoOps).deps 3) = 5000 ∧
+    sumSettled (settledOf (run init demoOps).settled 3) = 0 := by decide
 
 end FxVerif.Props.C15
